@@ -30,7 +30,7 @@ type Case struct {
 
 const (
 	refSteps  = 20000
-	slipSteps = 400000
+	slipSteps = 60000
 )
 
 // ---------------------------------------------------------------- slip side
@@ -190,7 +190,7 @@ type outcome struct {
 // runSlip evaluates the program with the real interpreter.
 func runSlip(forms []*ref.V, compile, typed bool) (o outcome) {
 	runCounter++
-	suffix := fmt.Sprintf("-%d", runCounter)
+	suffix := fmt.Sprintf("-r7q%d", runCounter)
 	rename := func(s string) string {
 		switch {
 		case reFun.MatchString(s):
@@ -209,19 +209,21 @@ func runSlip(forms []*ref.V, compile, typed bool) (o outcome) {
 	slipTrace = nil
 	scope := slip.NewScope()
 	steps := 0
+	stopped := false
 	scope.InterruptCheck = func() {
 		steps++
-		if slipSteps < steps {
+		if slipSteps < steps && !stopped {
+			// fires once: slip turns the panic into a condition (which
+			// evaluates forms itself) and unwinds
+			stopped = true
 			panic(budgetStop{})
 		}
 	}
 	var result slip.Object
-	stopped := false
 	o.err = func() (err *sl.Err) {
 		defer func() {
 			if r := recover(); r != nil {
 				if _, ok := r.(budgetStop); ok {
-					stopped = true
 					return
 				}
 				err = sl.Classify(r)
@@ -231,7 +233,11 @@ func runSlip(forms []*ref.V, compile, typed bool) (o outcome) {
 		if compile {
 			code.Compile()
 		}
-		result = code.Eval(scope, nil)
+		// each read object goes through Scope.Eval (the property's
+		// observation point); the value of the last one is the result
+		for _, obj := range code {
+			result = scope.Eval(obj, 0)
+		}
 		return nil
 	}()
 	sl.Reset()
@@ -274,6 +280,7 @@ func runRef(forms []*ref.V, typed bool) (e expected) {
 	ev := ref.New(refSteps)
 	vals, err := ev.Run(forms)
 	e.err = err
+	ref.StaticNotes(forms, ev.Notes)
 	e.notes = ev.NoteList()
 	e.trace = ev.Trace
 	if err == nil {
@@ -671,10 +678,43 @@ func shrink(fs []*ref.V, still func([]*ref.V) bool, maxTries int) []*ref.V {
 		tries++
 		return still(cand)
 	}
+	// one attempt at node p: hoist a sub-form, replace by an atom, or drop
+	// an element; returns the new program on success
+	reduce := func(p path) []*ref.V {
+		n := nodeAt(fs, p)
+		var cands []*ref.V
+		for j := 1; j < len(n.L); j++ {
+			cands = append(cands, n.L[j])
+			if n.L[j].K == ref.KList {
+				for k := 1; k < len(n.L[j].L); k++ {
+					cands = append(cands, n.L[j].L[k])
+				}
+			}
+		}
+		cands = append(cands, ref.Int(0), ref.Nil)
+		for _, c := range cands {
+			if n.Size() <= c.Size() {
+				continue
+			}
+			cand := cloneForms(fs)
+			replaceAt(cand, p, c.Clone())
+			if try(cand) {
+				return cand
+			}
+		}
+		for j := len(n.L) - 1; 1 <= j; j-- {
+			cand := cloneForms(fs)
+			cn := nodeAt(cand, p)
+			cn.L = append(cn.L[:j:j], cn.L[j+1:]...)
+			if try(cand) {
+				return cand
+			}
+		}
+		return nil
+	}
 	progress := true
 	for progress && tries < maxTries {
 		progress = false
-		// drop whole top-level forms
 		for i := 0; i < len(fs)-1; i++ {
 			cand := append(cloneForms(fs[:i]), cloneForms(fs[i+1:])...)
 			if try(cand) {
@@ -682,37 +722,17 @@ func shrink(fs []*ref.V, still func([]*ref.V) bool, maxTries int) []*ref.V {
 				i--
 			}
 		}
-	outer:
-		for _, p := range listNodes(fs) {
-			n := nodeAt(fs, p)
-			var cands []*ref.V
-			for j := 1; j < len(n.L); j++ {
-				cands = append(cands, n.L[j])
-				if n.L[j].K == ref.KList {
-					for k := 1; k < len(n.L[j].L); k++ {
-						cands = append(cands, n.L[j].L[k])
-					}
+		nodes := listNodes(fs)
+		for i := 0; i < len(nodes) && tries < maxTries; i++ {
+			for {
+				cand := reduce(nodes[i])
+				if cand == nil {
+					break
 				}
-			}
-			cands = append(cands, ref.Int(0), ref.Nil)
-			for _, c := range cands {
-				if n.Size() <= c.Size() {
-					continue
-				}
-				cand := cloneForms(fs)
-				replaceAt(cand, p, c.Clone())
-				if try(cand) {
-					fs, progress = cand, true
-					break outer
-				}
-			}
-			for j := len(n.L) - 1; 1 <= j; j-- {
-				cand := cloneForms(fs)
-				cn := nodeAt(cand, p)
-				cn.L = append(cn.L[:j:j], cn.L[j+1:]...)
-				if try(cand) {
-					fs, progress = cand, true
-					break outer
+				fs, progress = cand, true
+				nodes = listNodes(fs)
+				if len(nodes) <= i || nodeAt(fs, nodes[i]).K != ref.KList {
+					break
 				}
 			}
 		}
@@ -721,6 +741,8 @@ func shrink(fs []*ref.V, still func([]*ref.V) bool, maxTries int) []*ref.V {
 }
 
 // ---------------------------------------------------------------- exec
+
+var seenKnown = map[string]int{}
 
 func knownIn(notes []string) []string {
 	var out []string
@@ -763,6 +785,11 @@ func exec(x *fw.Ctx, c Case) {
 	}
 	typed := c.Kind == "quote"
 	x.Cover("stream:" + c.Kind)
+	if strings.HasSuffix(c.Tmpl, "(not expressible)") {
+		x.Cover("tmpl-not-expressible")
+		x.Trivial()
+		return
+	}
 	if c.Compile {
 		x.Cover("mode:compiled")
 	} else {
@@ -802,6 +829,12 @@ func exec(x *fw.Ctx, c Case) {
 	for _, n := range known {
 		x.Cover("avoided-construct-present:" + n)
 	}
+	if hangs(exp.notes) {
+		// listed finding (witness: null): the interpreter does not return
+		x.Trivial()
+		x.Cover("not-executed:known-hang")
+		return
+	}
 	x.CoverN("markers-placed", markers)
 	x.CoverN("side-effects-compared", len(exp.trace))
 	if c.Kind == "tmpl" {
@@ -833,17 +866,35 @@ func exec(x *fw.Ctx, c Case) {
 		}
 		return
 	}
+	mode := "interpreted"
+	if c.Compile {
+		mode = "compiled"
+	}
+	if 0 < len(known) {
+		// after enough minimised witnesses of the same listed constructs in
+		// this process, later ones are attributed without minimising
+		key := strings.Join(known, ",")
+		if seenKnown[key]++; 12 < seenKnown[key] {
+			sort.Slice(known, func(i, j int) bool { return knownBroken[known[i]].prio < knownBroken[known[j]].prio })
+			x.Cover("attributed-without-minimising")
+			x.Fail("construct="+known[0], "%s (%s): %s   [not minimised]", srcOf(forms), mode, detail)
+			return
+		}
+	}
 	// shrink to a minimal program that still diverges and does not touch
 	// a listed construct the original did not touch
 	still := func(cand []*ref.V) bool {
 		e := runRef(cand, typed)
-		if e.err != nil || !subset(knownIn(e.notes), known) {
+		kn := knownIn(e.notes)
+		if e.err != nil || !subset(kn, known) || hangs(e.notes) || (0 < len(known) && len(kn) == 0) {
+			// a case that touches listed constructs is minimised within
+			// that class (it may not drift to an unrelated divergence)
 			return false
 		}
 		k, _ := compare(e, runSlip(cand, c.Compile, typed))
 		return k != ""
 	}
-	small := shrink(cloneForms(forms), still, 400)
+	small := shrink(cloneForms(forms), still, 2500)
 	se := runRef(small, typed)
 	so := runSlip(small, c.Compile, typed)
 	skind, sdetail := compare(se, so)
@@ -851,11 +902,7 @@ func exec(x *fw.Ctx, c Case) {
 		small, se, skind, sdetail = forms, exp, kind, detail
 	}
 	sig := signature(small, se, skind)
-	mode := "interpreted"
-	if c.Compile {
-		mode = "compiled"
-	}
-	x.Fail(sig, "%s (%s): %s   [smallest diverging program; original: %s]", srcOf(small), mode, sdetail, detail)
+	x.Fail(sig, "%s (%s): %s   [smallest diverging program; case #%d originally: %s]", srcOf(small), mode, sdetail, x.Index, detail)
 	obs["shrunk"] = srcOf(small)
 }
 
@@ -890,14 +937,59 @@ func signature(small []*ref.V, se expected, kind string) string {
 type brokenInfo struct {
 	prio  int
 	probe string // deterministic probe program re-observing the finding
+	hang  bool   // the real interpreter never returns: never executed
 }
 
 // knownBroken: constructs the unchanged tree gets wrong (listed in
-// findings/C01.json). The clean stream does not generate them; the dirty
-// stream (a minority of cases) enables one of them per case.
-var knownBroken = map[string]brokenInfo{}
+// findings/C01.json), named by the note the reference evaluator attaches to
+// an execution that touches them. The clean stream does not generate them;
+// the dirty stream (a minority of cases) enables one of them per case.
+var knownBroken = map[string]brokenInfo{
+	"do-test-atom":                   {prio: 1, hang: true},
+	"do*-test-atom":                  {prio: 1, hang: true},
+	"values-0":                       {prio: 2, probe: "(list 1 (values))"},
+	"funcall-0":                      {prio: 3, probe: "(funcall (lambda () (vtr 1 7)))"},
+	"mapcar-empty-list":              {prio: 4, probe: "(mapcar #'1+ nil)"},
+	"cond-test-only":                 {prio: 5, probe: "(cond ((vtr 1 3)))"},
+	"mv-through:progn":               {prio: 6, probe: "(multiple-value-list (progn (vtr 1) (values 1 2)))"},
+	"mv-into:setq":                   {prio: 7, probe: "(let ((z 0)) (multiple-value-list (setq z (values 1 2))))"},
+	"do-nostep":                      {prio: 8, probe: "(do ((i 0 (1+ i)) (k 5)) ((>= i 2) k) (vtr 1 k))"},
+	"do*-nostep":                     {prio: 8, probe: "(do* ((i 0 (1+ i)) (k 5)) ((>= i 2) k) (vtr 1 k))"},
+	"dynleak":                        {prio: 9, probe: "(let ((x 1)) (let ((f (lambda (a) (+ x a)))) (let ((x 20)) (funcall f 0))))"},
+	"mv-into:test":                   {prio: 7, probe: "(if (values nil) (vtr 1 1) (vtr 2 2))"},
+	"mv-into:and":                    {prio: 7, probe: "(and (values nil) (vtr 1 13))"},
+	"mv-into:or":                     {prio: 7, probe: "(or (values nil) (vtr 1 13))"},
+	"mv-into:let-init":               {prio: 7, probe: "(let ((x (values 1 2))) (multiple-value-list x))"},
+	"mv-into:let*-init":              {prio: 7, probe: "(let* ((x (values 1 2))) (multiple-value-list x))"},
+	"mv-into:mapcar-result":          {prio: 7, probe: "(mapcar (lambda (a) (values a 2)) (list 1))"},
+	"lambda-call-bare-free-variable": {prio: 9, probe: "(funcall (lambda (a) ((lambda (b) a) 1)) 7)"},
+	"quote-shorthand-in-data":        {prio: 20, probe: "(quote (a 'b))"},
+	"quote-shorthand:quote":          {prio: 11, probe: "(list ''a)"},
+	"quote-shorthand:null":           {prio: 10, probe: "(list 'nil)"},
+	"quote-shorthand:t":              {prio: 10, probe: "(list 't)"},
+	"quote-shorthand:fixnum":         {prio: 10, probe: "(list '5)"},
+	"quote-shorthand:bignum":         {prio: 10, probe: "(list '12345678901234567890123)"},
+	"quote-shorthand:ratio":          {prio: 10, probe: "(list '3/4)"},
+	"quote-shorthand:single-float":   {prio: 10, probe: "(list '2.5f0)"},
+	"quote-shorthand:double-float":   {prio: 10, probe: "(list '1.5d0)"},
+	"quote-shorthand:long-float":     {prio: 10, probe: "(list '1.5L0)"},
+	"quote-shorthand:string":         {prio: 10, probe: "(list '\"s\")"},
+	"quote-shorthand:character":      {prio: 10, probe: "(list '#\\a)"},
+	"quote-shorthand:vector":         {prio: 10, probe: "(list '#(1 2))"},
+}
+
+func hangs(notes []string) bool {
+	for _, n := range notes {
+		if knownBroken[n].hang {
+			return true
+		}
+	}
+	return false
+}
 
 var (
+	dirtyPlain, dirtyQuote []string
+
 	dirtyKeys []string
 	probes    []Case
 	tmplTable []string
@@ -924,6 +1016,13 @@ func init() {
 		dirtyKeys = append(dirtyKeys, k)
 	}
 	sort.Strings(dirtyKeys)
+	for _, k := range dirtyKeys {
+		if strings.HasPrefix(k, "quote-shorthand") {
+			dirtyQuote = append(dirtyQuote, k)
+		} else {
+			dirtyPlain = append(dirtyPlain, k)
+		}
+	}
 	for _, k := range dirtyKeys {
 		if p := knownBroken[k].probe; p != "" {
 			probes = append(probes, Case{Kind: "probe", Src: p, Dirty: []string{k}})
@@ -992,8 +1091,14 @@ func genCase(r *rand.Rand, i int, tier string) Case {
 		return quoteCase(r, compile)
 	}
 	var dirty []string
-	if 0 < len(dirtyKeys) && r.IntN(10) == 0 {
-		dirty = []string{dirtyKeys[r.IntN(len(dirtyKeys))]}
+	if 0 < len(dirtyPlain) && r.IntN(8) == 0 {
+		// one listed construct per dirty case; the quote-shorthand family
+		// counts as one choice
+		if k := r.IntN(len(dirtyPlain) + 1); k < len(dirtyPlain) {
+			dirty = []string{dirtyPlain[k]}
+		} else {
+			dirty = []string{dirtyQuote[r.IntN(len(dirtyQuote))]}
+		}
 	}
 	g := newGen(r, compile, dirty)
 	g.maxDepth = 3 + r.IntN(4)
